@@ -398,7 +398,7 @@ def extract_fn(unit: str, file: str, item: str, mode: str, contracts, canary: bo
                 edits.append((toks[lp.kw_tok].start, toks[in_k].end, '{ let mut %s = %s' % (itname, conv.split('%s')[0]), rw('R8')))
                 edits.append((open_t.start, open_t.start, conv.split('%s')[1] + '; loop\n', rw('R8')))
                 # invariants go between `loop` and `{`
-                loop_head: List[Seg] = inv_segs + [Seg('        { match %s.next() { None => break, Some(%s) => {' % (itname, pat), rw('R8'))]
+                loop_head: List[Seg] = inv_segs + [Seg('        { match %s.next() { Option::None => break, Option::Some(%s) => {' % (itname, pat), rw('R8'))]
                 edits.append((open_t.start, open_t.end, ('SEGS', loop_head), rw('R8')))
                 edits.append((close_t.start, close_t.end, '}}}}', rw('R8')))
                 info.rewrites.append('R8:loop%d' % k)
